@@ -234,29 +234,40 @@ func modDefault(ctx *Ctx, buf *any, val any, args []any) (err error) {
 }
 
 // Conditional assignment modifier.
-func modIfThen(_ *Ctx, buf *any, val any, args []any) (err error) {
+func modIfThen(ctx *Ctx, buf *any, val any, args []any) (err error) {
 	if len(args) == 0 {
 		err = ErrModNoArgs
 		return
 	}
 	if checkTrue(val) {
-		*buf = args[0]
+		*buf = ownArg(ctx, args[0])
 	}
 	return
 }
 
 // Extended conditional assignment modifier (includes else case).
-func modIfThenElse(_ *Ctx, buf *any, val any, args []any) (err error) {
+func modIfThenElse(ctx *Ctx, buf *any, val any, args []any) (err error) {
 	if len(args) < 2 {
 		err = ErrModPoorArgs
 		return
 	}
 	if checkTrue(val) {
-		*buf = args[0]
+		*buf = ownArg(ctx, args[0])
 	} else {
-		*buf = args[1]
+		*buf = ownArg(ctx, args[1])
 	}
 	return
+}
+
+// Bytes arguments (static ones point into the parsed tree) are copied to the
+// context's buffer, so the destination never shares memory with the tree.
+func ownArg(ctx *Ctx, arg any) any {
+	if p, ok := arg.(*[]byte); ok && p != nil {
+		i := ctx.reserveBB()
+		ctx.bufBB[i] = append(ctx.bufBB[i], *p...)
+		return &ctx.bufBB[i]
+	}
+	return arg
 }
 
 // Check if given val is a true.
